@@ -1746,7 +1746,10 @@ func reposPostHandler(c web.C, w http.ResponseWriter, r *http.Request) {
 	var assign dvid.UUID
 	var assignPtr *dvid.UUID
 	if found {
-		assign = dvid.UUID(assignStr)
+		if assign, err = dvid.StringToUUID(assignStr); err != nil {
+			BadRequest(w, r, "Bad 'root' UUID provided: %v", err)
+			return
+		}
 		assignPtr = &assign
 	}
 
@@ -2238,9 +2241,10 @@ func repoTagHandler(c web.C, w http.ResponseWriter, r *http.Request) {
 		}
 	}
 
-	// the tag becomes the UUID of the new version: it cannot be empty
-	if len(jsonData.Tag) == 0 {
-		BadRequest(w, r, "POST tag requires a non-empty 'tag' in the JSON body")
+	// The tag becomes the UUID of the new node, so it must be usable as an address: not empty, and
+	// without ':' (everything after the first colon of an address is read as a branch name).
+	if jsonData.Tag == "" || strings.Contains(jsonData.Tag, ":") {
+		BadRequest(w, r, fmt.Sprintf("tag %q cannot be used: a tag must be a non-empty string without ':'", jsonData.Tag))
 		return
 	}
 
